@@ -6,7 +6,7 @@ use crate::gen::*;
 use crate::models::*;
 use crate::prob::*;
 use crate::state::*;
-use crate::twins::{any_model, wrap_any};
+use crate::twins::{any_model, wrap_any, RowModel};
 use nalgebra::{DMatrix, DVector};
 
 pub static HANGS: std::sync::atomic::AtomicUsize = std::sync::atomic::AtomicUsize::new(0);
@@ -32,10 +32,30 @@ fn special<T: Sc>(rng: &mut Rng) -> T {
     T::of(*rng.pick(&SPECIALS))
 }
 
+/// one entry of the basis matrix replaced by a special value (what=entry-special)
+pub type Poke<T> = Option<(usize, usize, T)>;
+
+fn poked<T: Sc>(mut m: DMatrix<T>, poke: &Poke<T>) -> DMatrix<T> {
+    if let Some((i, j, v)) = poke {
+        if *i < m.nrows() && *j < m.ncols() {
+            m[(*i, *j)] = *v;
+        }
+    }
+    m
+}
+
+fn emit_tables_poked<T: Sc>(out: &mut Out, recipe: &Recipe, alpha: &[T], poke: &Poke<T>) {
+    out.line(&format!(" phi ok {}", mat_str(&poked(recipe.phi::<T>(alpha), poke))));
+    for k in 0..recipe.p() {
+        out.line(&format!(" d {} ok {}", k, mat_str(&recipe.dphi::<T>(alpha, k))));
+    }
+}
+
 fn build_guarded<T: Sc>(
     c: &StateCase<T>,
     init: Vec<T>,
     secs: u64,
+    poke: Poke<T>,
 ) -> Option<Result<Result<Box<dyn DynP<T>>, String>, String>> {
     let recipe = c.recipe.clone();
     let built = c.built;
@@ -44,13 +64,29 @@ fn build_guarded<T: Sc>(
     let w = c.w.clone();
     let eps = c.eps;
     with_deadline(secs, move || {
-        let m = wrap_any(any_model(&recipe, &init, built));
+        let m = match poke {
+            None => wrap_any(any_model(&recipe, &init, built)),
+            Some(e) => wrap_any(AnyModel::Dyn(Box::new(RowModel {
+                inner: any_model(&recipe, &init, built),
+                scale: None,
+                overwrite: vec![],
+                entries: vec![e],
+            }))),
+        };
         let wv = w.map(DVector::from_vec);
         build_problem(fl, m, &y, wv.as_ref(), eps)
     })
 }
 
-pub fn emit_robust_case<T: Sc>(out: &mut Out, c: &StateCase<T>, second: Option<Vec<T>>, cfg: &LmCfg, with_stats: bool, what: &str) {
+pub fn emit_robust_case<T: Sc>(
+    out: &mut Out,
+    c: &StateCase<T>,
+    second: Option<Vec<T>>,
+    cfg: &LmCfg,
+    with_stats: bool,
+    what: &str,
+    poke: Poke<T>,
+) {
     out.begin(
         "robust",
         &format!("{} what={} stats={} profile={}", header_common(c), what, if with_stats { 1 } else { 0 }, crate::stats::profile_name()),
@@ -58,8 +94,8 @@ pub fn emit_robust_case<T: Sc>(out: &mut Out, c: &StateCase<T>, second: Option<V
     emit_inputs(out, c);
     out.line(&cfg.describe::<T>());
     out.line(&format!("step build {}", slice_str(&c.init)));
-    emit_tables(out, &c.recipe, &c.init);
-    let mut prob = match build_guarded(c, c.init.clone(), 5) {
+    emit_tables_poked(out, &c.recipe, &c.init, &poke);
+    let mut prob = match build_guarded(c, c.init.clone(), 5, poke) {
         None => {
             out.line("outcome build hang");
             HANGS.fetch_add(1, std::sync::atomic::Ordering::SeqCst);
@@ -91,7 +127,7 @@ pub fn emit_robust_case<T: Sc>(out: &mut Out, c: &StateCase<T>, second: Option<V
     }
     if let Some(a2) = second {
         out.line(&format!("step set {}", slice_str(&a2)));
-        emit_tables(out, &c.recipe, &a2);
+        emit_tables_poked(out, &c.recipe, &a2, &poke);
         let av = DVector::from_vec(a2);
         let r = with_deadline(5, move || {
             prob.set(&av);
@@ -198,8 +234,9 @@ pub fn stream(out: &mut Out, seed: u64, thorough: bool) {
 }
 
 fn one<T: Sc>(out: &mut Out, rng: &mut Rng, i: usize, thorough: bool) {
-    let kind = i % 8;
-    let mut c = if kind >= 5 {
+    let kind = i % 9;
+    let mut poke: Poke<T> = None;
+    let mut c = if kind >= 5 && kind < 8 {
         // exponential families from far / extreme starts
         let n = rng.range(3, 20);
         let recipe = exp_family(rng, n);
@@ -277,6 +314,24 @@ fn one<T: Sc>(out: &mut Out, rng: &mut Rng, i: usize, thorough: bool) {
             a2[k] = special::<T>(rng);
             second = Some(a2);
         }
+        8 => {
+            // exactly ONE non-finite (or huge) element of the basis matrix, at a corner or anywhere:
+            // the finiteness guard has to look at every element
+            what = "entry-special";
+            let (n, m) = (c.recipe.n(), c.recipe.m());
+            let (r, cc) = match rng.below(5) {
+                0 => (0, 0),
+                1 => (n - 1, m - 1),
+                2 => (0, m - 1),
+                3 => (n - 1, 0),
+                _ => (rng.below(n), rng.below(m)),
+            };
+            let v = *rng.pick(&[f64::NAN, f64::INFINITY, f64::NEG_INFINITY, f64::NAN, 1e308]);
+            poke = Some((r, cc, T::of(v)));
+            if rng.chance(0.5) {
+                second = Some(random_alpha(rng, c.recipe.p()).iter().map(|v| T::of(*v)).collect());
+            }
+        }
         4 => {
             what = "degenerate-shape";
             // N = 1, N < M, constant columns
@@ -299,5 +354,5 @@ fn one<T: Sc>(out: &mut Out, rng: &mut Rng, i: usize, thorough: bool) {
     let _ = thorough;
     let cfg = if i % 5 == 0 { random_lmcfg(rng) } else { LmCfg::default_cfg() };
     let with_stats = !c.flavour.is_mrhs() && i % 2 == 0;
-    emit_robust_case(out, &c, second, &cfg, with_stats, what);
+    emit_robust_case(out, &c, second, &cfg, with_stats, what, poke);
 }
